@@ -279,6 +279,7 @@ func runC19(p *Prog, r *Report) {
 	localConfigFunctionsOnlyRule(p, r, "C19.R9")
 	noScannerRule(p, r, "C19.R10")
 	localConfigNameRule(p, r, "C19.R11")
+	localsKeyRule(p, r, "C19.R12")
 }
 
 // docOrigin: e is parse.CommentToString(X.Doc) (possibly via a local variable or a
